@@ -74,11 +74,11 @@ package composite
 //@   requires validPC(pc) && parent != nil
 //@   ensures [C04] err == nil ==> sel != nil
 
-//@ func parentController.updateParentStatus(pc, parent, status) (res, err)
+//@ func parentController.updateParentStatus(pc, parent, observedGeneration, status) (res, err)
 //@   requires validPC(pc) && parent != nil
 //@   safety C13
 //@   at ResourceClient.AtomicStatusUpdate(rc, orig, fn) [C11]: orig == parent && rc.APIResource == pc.parentClient.APIResource
-//@   at ResourceClient.AtomicStatusUpdate(rc, orig, fn) [C11]: cur(status) != nil && cur(status)["observedGeneration"] == parent.GetGeneration()
+//@   at ResourceClient.AtomicStatusUpdate(rc, orig, fn) [C11]: cur(status) != nil && cur(status)["observedGeneration"] == observedGeneration
 //@   at ResourceClient.AtomicStatusUpdate(rc, orig, fn) [C11]: status != nil ==> cur(status) == status && (forall k string :: k != "observedGeneration" ==> has(status, k) == old(has(status, k)) && status[k] == old(status[k]))
 //@   ensures [C11] count(ResourceClient.AtomicStatusUpdate) == 1
 
@@ -107,7 +107,10 @@ package composite
 //@   at ManageChildren(dc, us, p, obs, des, opts) [C10]: p.GetDeletionTimestamp() == nil || (pc.finalizer.Enabled && ContainsFinalizer(p, pc.finalizer.Name) && !ContainsFinalizer(p, "foregroundDeletion") && !ContainsFinalizer(p, "orphan"))
 //@   at ManageChildren(dc, us, p, obs, des, opts) [C10]: pc.finalizer.Enabled ==> ContainsFinalizer(p, pc.finalizer.Name) || p.GetDeletionTimestamp() != nil || syncResult.Finalized
 //@   at ResourceClient.RemoveFinalizer(rc, o, name) [C10]: srErr == nil && syncResult.Finalized && name == pc.finalizer.Name && o == updatedParent
-//@   at parentController.updateParentStatus(p0, p, status) [C11]: status == syncResult.Status && p.GetUID() == parent.GetUID()
+//@   at parentController.updateParentStatus(p0, p, og, status) [C11]: status == syncResult.Status && p.GetUID() == parent.GetUID()
+//@   // observedGeneration is the generation of the parent that was sent to the hooks (the result of SyncObject), also when the
+//@   // parent was re-read afterwards (RemoveFinalizer)
+//@   at parentController.updateParentStatus(p0, p, og, status) [C11]: og == updatedParent.GetGeneration()
 //@   ensures [C11] called(ManageChildren) ==> called(parentController.updateParentStatus)
 //@   ensures [C10,C12] called(Manager.SyncObject) && soErr != nil ==> err != nil && !called(parentController.claimChildren) && !called(ManageChildren)
 //@   ensures [C09,C12,C13] called(parentController.syncRevisions) && srErr != nil ==> err != nil && !called(ManageChildren)
